@@ -304,7 +304,8 @@ B_Reg(c) ==
 
 \* an op on the handle of a job whose Add was rejected: there is no handle, nothing is called
 C_NoHandle(c) ==
-  /\ c \in Clients /\ S.pc[c] = "call" /\ HasOp(c) /\ Op(c).op \in {"Close", "Wait", "Result"} /\ Op(c).job \in S.nohd
+  /\ c \in Clients /\ S.pc[c] = "call" /\ HasOp(c) /\ Op(c).op \in {"Close", "Wait", "Result"}
+  /\ Op(c).job \in S.nohd \/ BatchOf[Op(c).job] # 0          \* (the items of a batch have no handles of their own)
   /\ S' = Fin(S, c)
   /\ H' = [H EXCEPT !.ctl = @]
 
